@@ -396,8 +396,16 @@ def _eval_prefix_predicate(ctx, f, test_call, env):
     fold = consts.Folder(ctx.prog)
     if not (isinstance(test_call, ast.Call) and isinstance(test_call.func, ast.Attribute) and test_call.func.attr == 'startswith' and len(test_call.args) == 1):
         return None
+    arg = test_call.args[0]
+    if isinstance(arg, ast.Name) and arg.id not in env:
+        # a local name for the tuple of openers: one definition in this function
+        ds = [x for x in walk_scope(f.node) if isinstance(x, ast.Assign) and len(x.targets) == 1 and is_name(x.targets[0], arg.id)]
+        others = [x for x in walk_scope(f.node) if isinstance(x, (ast.AugAssign, ast.For, ast.NamedExpr)) and
+                  any(isinstance(y, ast.Name) and y.id == arg.id and isinstance(y.ctx, ast.Store) for y in ast.walk(x.target))]
+        if len(ds) == 1 and not others:
+            arg = ds[0].value
     try:
-        prefixes = fold.fold(f.module, test_call.args[0], env, f)
+        prefixes = fold.fold(f.module, arg, env, f)
     except consts.NotConstant:
         return None
     if isinstance(prefixes, str):
